@@ -19,38 +19,45 @@ Lemma qappend_content s r : content (qappend s r) = content s ++ [r].
 Proof. unfold content, qappend; cbn. rewrite app_assoc. reflexivity. Qed.
 Lemma sink_flush_content cfg s : content (sink_flush cfg s) = content s.
 Proof. unfold sink_flush. destruct (fs_flush_real cfg); [apply qflush_content|reflexivity]. Qed.
+Lemma qflush_sid s : sid (qflush s) = sid s.
+Proof. unfold qflush. destruct (broken s); reflexivity. Qed.
+Lemma sink_flush_sid cfg s : sid (sink_flush cfg s) = sid s.
+Proof. unfold sink_flush. destruct (fs_flush_real cfg); [apply qflush_sid|reflexivity]. Qed.
 Lemma sink_flush_broken cfg s : broken (sink_flush cfg s) = broken s.
 Proof. unfold sink_flush. destruct (fs_flush_real cfg); [apply qflush_broken|reflexivity]. Qed.
 
-(* whatever the buffering policy does, a write adds exactly its record to (file ++ buffer) *)
-Lemma write_spec cfg pol s m :
-  content (write cfg pol s m) = content s ++ [snd m] /\ broken (write cfg pol s m) = broken s.
+(* whatever the buffering policy does, a write adds exactly its record to (file ++ buffer) — unless the
+   device rejects it, in which case nothing changes *)
+Lemma write_spec cfg pol rej s m :
+  content (write cfg pol rej s m) = content s ++ (if rej (sid s) (snd m) then [] else [snd m])
+  /\ broken (write cfg pol rej s m) = broken s /\ sid (write cfg pol rej s m) = sid s.
 Proof.
-  unfold write.
+  unfold write. destruct (rej (sid s) (snd m)); [rewrite app_nil_r; repeat split|].
   set (s1 := if rot_presize cfg && presize s then qflush s else s).
-  assert (E1 : content s1 = content s /\ broken s1 = broken s)
-    by (unfold s1; destruct (rot_presize cfg && presize s); [split; [apply qflush_content|apply qflush_broken]|split; reflexivity]).
+  assert (E1 : content s1 = content s /\ broken s1 = broken s /\ sid s1 = sid s)
+    by (unfold s1; destruct (rot_presize cfg && presize s); [repeat split; [apply qflush_content|apply qflush_broken|apply qflush_sid]|repeat split]).
   destruct (pol s1 (snd m)) as [pre post].
   set (s2 := if pre then qflush s1 else s1).
-  assert (E2 : content s2 = content s1 /\ broken s2 = broken s1)
-    by (unfold s2; destruct pre; [split; [apply qflush_content|apply qflush_broken]|split; reflexivity]).
+  assert (E2 : content s2 = content s1 /\ broken s2 = broken s1 /\ sid s2 = sid s1)
+    by (unfold s2; destruct pre; [repeat split; [apply qflush_content|apply qflush_broken|apply qflush_sid]|repeat split]).
   set (s4 := if post then qflush (qappend s2 (snd m)) else qappend s2 (snd m)).
-  assert (E4 : content s4 = content s ++ [snd m] /\ broken s4 = broken s).
-  { unfold s4. destruct post; [rewrite qflush_content, qflush_broken|]; rewrite qappend_content;
-      (split; [rewrite (proj1 E2), (proj1 E1); reflexivity|cbn; rewrite (proj2 E2), (proj2 E1); reflexivity]). }
-  destruct (mem_type (fst m) (snk_flush_types cfg)); [rewrite sink_flush_content, sink_flush_broken|]; exact E4.
+  assert (E4 : content s4 = content s ++ [snd m] /\ broken s4 = broken s /\ sid s4 = sid s).
+  { destruct E1 as (A1 & B1 & C1), E2 as (A2 & B2 & C2).
+    unfold s4. destruct post; [rewrite qflush_content, qflush_broken, qflush_sid|]; rewrite qappend_content;
+      (repeat split; [rewrite A2, A1; reflexivity|cbn; rewrite B2, B1; reflexivity|cbn; rewrite C2, C1; reflexivity]). }
+  destruct (mem_type (fst m) (snk_flush_types cfg)); [rewrite sink_flush_content, sink_flush_broken, sink_flush_sid|]; exact E4.
 Qed.
 
 (* ---- views ---- *)
-Definition vw (sg : sink * list flt) : list rec * bool * list flt := (content (fst sg), broken (fst sg), snd sg).
+Definition vw (sg : sink * list flt) : N * list rec * bool * list flt := (sid (fst sg), content (fst sg), broken (fst sg), snd sg).
 Definition tview (pre : list flt) (t : tree) := map vw (gs pre t).
 Definition view (t : tree) := tview [] t.
-Definition upd (m : msg) (v : list rec * bool * list flt) : list rec * bool * list flt :=
-  let '(c, b, G) := v in (c ++ (if pass G m then [snd m] else []), b, G).
+Definition upd (rej : reject) (m : msg) (v : N * list rec * bool * list flt) : N * list rec * bool * list flt :=
+  let '(i, c, b, G) := v in (i, c ++ (if pass G m && negb (rej i (snd m)) then [snd m] else []), b, G).
 
 Lemma pass_app G f m : pass (G ++ [f]) m = pass G m && f m.
 Proof. unfold pass. rewrite forallb_app. cbn. rewrite andb_true_r. reflexivity. Qed.
-Lemma gnext_twrite cfg pol m lv pre t : gnext pre (twrite cfg pol m lv t) = gnext pre t.
+Lemma gnext_twrite cfg pol rej m lv pre t : gnext pre (twrite cfg pol rej m lv t) = gnext pre t.
 Proof. destruct t; reflexivity. Qed.
 Lemma gnext_tflush cfg pre t : gnext pre (tflush cfg t) = gnext pre t.
 Proof. destruct t; cbn; try reflexivity; [destruct (rf_flush_sinks cfg)|destruct (rf_descends cfg)]; reflexivity. Qed.
@@ -64,6 +71,7 @@ Section TreeInd.
   Hypothesis HP : forall l, Forall P l -> P (TPipe l).
   Hypothesis HF : forall f, P (TFilter f).
   Hypothesis HO : P TOther.
+  Hypothesis HN : P TNull.
   Fixpoint tree_ind2 (t : tree) : P t :=
     match t with
     | TSink s => HS s
@@ -71,29 +79,30 @@ Section TreeInd.
                           match l with [] => Forall_nil _ | x :: r => Forall_cons x (tree_ind2 x) (G r) end) l)
     | TFilter f => HF f
     | TOther => HO
+    | TNull => HN
     end.
 End TreeInd.
 (* the loops of the model as top-level functions *)
-Definition lw cfg pol (m : msg) : list tree -> bool -> list tree :=
+Definition lw cfg pol rej (m : msg) : list tree -> bool -> list tree :=
   fix lw (l : list tree) (lv : bool) : list tree :=
-    match l with [] => [] | x :: r => twrite cfg pol m lv x :: lw r (lnext m lv x) end.
-Lemma lw_cons cfg pol m x r lv : lw cfg pol m (x :: r) lv = twrite cfg pol m lv x :: lw cfg pol m r (lnext m lv x).
+    match l with [] => [] | x :: r => twrite cfg pol rej m lv x :: lw r (lnext m lv x) end.
+Lemma lw_cons cfg pol rej m x r lv : lw cfg pol rej m (x :: r) lv = twrite cfg pol rej m lv x :: lw cfg pol rej m r (lnext m lv x).
 Proof. reflexivity. Qed.
 Fixpoint go (l : list tree) (cur : list flt) : list (sink * list flt) :=
   match l with [] => [] | x :: r => gs cur x ++ go r (gnext cur x) end.
-Lemma twrite_pipe cfg pol m lv l : twrite cfg pol m lv (TPipe l) = TPipe (lw cfg pol m l lv).
+Lemma twrite_pipe cfg pol rej m lv l : twrite cfg pol rej m lv (TPipe l) = TPipe (lw cfg pol rej m l lv).
 Proof. reflexivity. Qed.
 Lemma gs_pipe pre l : gs pre (TPipe l) = go l pre.
 Proof. reflexivity. Qed.
 
 (* a message appends its record exactly to the sinks whose filters it passes *)
-Lemma tview_twrite cfg pol m : forall t pre,
-  tview pre (twrite cfg pol m (pass pre m) t) = map (upd m) (tview pre t).
+Lemma tview_twrite cfg pol rej m : forall t pre,
+  tview pre (twrite cfg pol rej m (pass pre m) t) = map (upd rej m) (tview pre t).
 Proof.
-  induction t as [s|l IH|f|] using tree_ind2; intros pre; try reflexivity.
+  induction t as [s|l IH|f| |] using tree_ind2; intros pre; try reflexivity.
   - unfold tview. cbn [twrite gs map]. unfold vw, upd. cbn [fst snd].
-    destruct (pass pre m).
-    + destruct (write_spec cfg pol s m) as [-> ->]. reflexivity.
+    destruct (pass pre m); cbn [andb].
+    + destruct (write_spec cfg pol rej s m) as (-> & -> & ->). destruct (rej (sid s) (snd m)); reflexivity.
     + rewrite app_nil_r. reflexivity.
   - rewrite twrite_pipe. unfold tview. rewrite !gs_pipe. revert pre.
     induction IH as [|x r Hx _ IHr]; intros cur; [reflexivity|].
@@ -109,14 +118,14 @@ Proof.
 Qed.
 Lemma tview_tflush cfg : forall t pre, tview pre (tflush cfg t) = tview pre t.
 Proof.
-  induction t as [s|l IH|f|] using tree_ind2; intros pre; try reflexivity; cbn [tflush].
+  induction t as [s|l IH|f| |] using tree_ind2; intros pre; try reflexivity; cbn [tflush].
   - destruct (rf_flush_sinks cfg); [|reflexivity]. unfold tview. cbn [gs map]. unfold vw. cbn [fst snd].
-    rewrite sink_flush_content, sink_flush_broken. reflexivity.
+    rewrite sink_flush_content, sink_flush_broken, sink_flush_sid. reflexivity.
   - destruct (rf_descends cfg); [|reflexivity]. unfold tview. rewrite !gs_pipe. apply go_map_tflush. exact IH.
 Qed.
 Lemma tview_root_flush cfg t pre : tview pre (root_flush cfg t) = tview pre t.
 Proof.
-  destruct t as [s|l|f|]; try apply tview_tflush. unfold root_flush, tview. rewrite !gs_pipe.
+  destruct t as [s|l|f| |]; try apply tview_tflush. unfold root_flush, tview. rewrite !gs_pipe.
   apply go_map_tflush. apply Forall_forall. intros x _. apply tview_tflush.
 Qed.
 
@@ -132,7 +141,7 @@ Lemma gs_tflush_flushed cfg :
   rf_flush_sinks cfg = true -> rf_descends cfg = true -> fs_flush_real cfg = true ->
   forall t pre, Forall flushed (gs pre (tflush cfg t)).
 Proof.
-  intros Hs Hd Hr. induction t as [s|l IH|f|] using tree_ind2; intros pre; cbn [tflush]; try (cbn; constructor).
+  intros Hs Hd Hr. induction t as [s|l IH|f| |] using tree_ind2; intros pre; cbn [tflush]; try (cbn; constructor).
   - rewrite Hs. cbn [gs]. constructor; [|constructor]. unfold flushed, sink_flush. cbn [fst]. rewrite Hr.
     rewrite qflush_broken. apply qflush_buf.
   - rewrite Hd, gs_pipe. apply go_map_flushed. exact IH.
@@ -141,13 +150,13 @@ Lemma gs_root_flush_flushed cfg :
   rf_flush_sinks cfg = true -> rf_descends cfg = true -> fs_flush_real cfg = true ->
   forall t, Forall flushed (gs [] (root_flush cfg t)).
 Proof.
-  intros Hs Hd Hr [s|l|f|]; try (apply gs_tflush_flushed; assumption).
+  intros Hs Hd Hr [s|l|f| |]; try (apply gs_tflush_flushed; assumption).
   unfold root_flush. rewrite gs_pipe. apply go_map_flushed. apply Forall_forall. intros x _.
   apply gs_tflush_flushed; assumption.
 Qed.
 
 (* ---- messages and histories ---- *)
-Lemma view_process_message cfg pol t m : view (process_message cfg pol t m) = map (upd m) (view t).
+Lemma view_process_message cfg pol rej t m : view (process_message cfg pol rej t m) = map (upd rej m) (view t).
 Proof.
   unfold process_message, view. change true with (pass [] m).
   destruct (ff_pos cfg).
@@ -155,21 +164,21 @@ Proof.
   - rewrite tview_twrite. destruct (flushes cfg (fst m)); [rewrite tview_root_flush|]; reflexivity.
   - destruct (flushes cfg (fst m)); [rewrite tview_root_flush|]; apply tview_twrite.
 Qed.
-Definition upd_all (msgs : list msg) (v : list rec * bool * list flt) : list rec * bool * list flt :=
-  let '(c, b, G) := v in (c ++ map snd (filter (pass G) msgs), b, G).
-Lemma view_log_all cfg pol msgs : forall t, view (log_all cfg pol t msgs) = map (upd_all msgs) (view t).
+Definition upd_all (rej : reject) (msgs : list msg) (v : N * list rec * bool * list flt) : N * list rec * bool * list flt :=
+  let '(i, c, b, G) := v in (i, c ++ map snd (filter (fun m => pass G m && negb (rej i (snd m))) msgs), b, G).
+Lemma view_log_all cfg pol rej msgs : forall t, view (log_all cfg pol rej t msgs) = map (upd_all rej msgs) (view t).
 Proof.
   unfold log_all. induction msgs as [|m rest IH]; intros t; cbn [fold_left].
-  - rewrite <- (map_id (view t)) at 1. apply map_ext. intros [[c b] G]. cbn. rewrite app_nil_r. reflexivity.
-  - rewrite IH, view_process_message, map_map. apply map_ext. intros [[c b] G]. cbn [upd upd_all filter].
-    destruct (pass G m); cbn [map]; rewrite <- app_assoc; reflexivity.
+  - rewrite <- (map_id (view t)) at 1. apply map_ext. intros [[[i c] b] G]. cbn. rewrite app_nil_r. reflexivity.
+  - rewrite IH, view_process_message, map_map. apply map_ext. intros [[[i c] b] G]. cbn [upd upd_all filter].
+    destruct (pass G m && negb (rej i (snd m))); cbn [map]; rewrite <- app_assoc; reflexivity.
 Qed.
-Lemma view_run_fatal cfg pol t msgs r :
-  view (run_fatal cfg pol t msgs r) = map (upd_all (msgs ++ [(Fatal, r)])) (view t).
+Lemma view_run_fatal cfg pol rej t msgs r :
+  view (run_fatal cfg pol rej t msgs r) = map (upd_all rej (msgs ++ [(Fatal, r)])) (view t).
 Proof.
   unfold run_fatal. rewrite view_process_message, view_log_all, map_map. apply map_ext.
-  intros [[c b] G]. cbn [upd upd_all]. rewrite filter_app, map_app, <- app_assoc. cbn [filter].
-  destruct (pass G (Fatal, r)); reflexivity.
+  intros [[[i c] b] G]. cbn [upd upd_all]. rewrite filter_app, map_app, <- app_assoc. cbn [filter snd].
+  destruct (pass G (Fatal, r) && negb (rej i r)); reflexivity.
 Qed.
 
 Lemma cfg_good_inv cfg : cfg_goodb cfg = true ->
@@ -182,9 +191,9 @@ Proof.
   repeat split; try assumption. apply andb_true_iff. split; assumption.
 Qed.
 
-Definition obs (v : list rec * bool * list flt) : option (list rec) :=
-  let '(c, b, _) := v in if b then None else Some c.
-Lemma expected_view t msgs : expected t msgs = map obs (map (upd_all msgs) (view t)).
+Definition obs (v : N * list rec * bool * list flt) : option (list rec) :=
+  let '(_, c, b, _) := v in if b then None else Some c.
+Lemma expected_view rej t msgs : expected rej t msgs = map obs (map (upd_all rej msgs) (view t)).
 Proof.
   unfold expected, view, tview, gsinks. rewrite !map_map. apply map_ext. intros [s G]. cbn.
   destruct (broken s); reflexivity.
@@ -197,15 +206,16 @@ Proof.
   destruct (broken s); [reflexivity|]. unfold content. rewrite (Hs eq_refl), app_nil_r. reflexivity.
 Qed.
 
-(* THE theorem: with a good configuration, for every handler tree (file sinks healthy or not,
-   filters, other handlers, pipelines nested to any depth), every history, every buffering policy:
-   at abort the file of every healthy file sink holds what it held before plus every record that
-   passed the filters in front of that sink, in order — the fatal record included iff it passes *)
+(* THE theorem: with a good configuration, for every handler tree (file sinks healthy or not, filters,
+   null entries, other handlers, pipelines nested to any depth), every history, every buffering policy
+   and every pattern of transient device faults: at abort the file of every healthy file sink holds
+   what it held before plus every record that passed the filters in front of that sink and was written
+   while the device accepted writes, in order — the fatal record included iff it passes and is accepted *)
 Theorem fatal_reaches_disk cfg : cfg_goodb cfg = true ->
-  forall (pol : policy) (t : tree) (msgs : list msg) (r : rec),
-  survivors (run_fatal cfg pol t msgs r) = expected t (msgs ++ [(Fatal, r)]).
+  forall (pol : policy) (rej : reject) (t : tree) (msgs : list msg) (r : rec),
+  survivors (run_fatal cfg pol rej t msgs r) = expected rej t (msgs ++ [(Fatal, r)]).
 Proof.
-  intros Hg pol t msgs r.
+  intros Hg pol rej t msgs r.
   destruct (cfg_good_inv cfg Hg) as (Hp & Hf & Hs & Hd & Hr).
   rewrite survivors_of_flushed.
   - rewrite view_run_fatal, expected_view. reflexivity.
@@ -213,26 +223,30 @@ Proof.
     apply gs_root_flush_flushed; assumption.
 Qed.
 
-(* nothing is ever lost from file ++ buffer, good configuration or not: what a file lacks at abort
-   is exactly what still sat in the buffer *)
-Theorem content_conserved cfg pol t msgs r :
-  view (run_fatal cfg pol t msgs r) = map (upd_all (msgs ++ [(Fatal, r)])) (view t).
+(* nothing is ever lost from file ++ buffer except a record the device rejected, good configuration or
+   not: what a file lacks at abort is exactly what still sat in the buffer *)
+Theorem content_conserved cfg pol rej t msgs r :
+  view (run_fatal cfg pol rej t msgs r) = map (upd_all rej (msgs ++ [(Fatal, r)])) (view t).
 Proof. apply view_run_fatal. Qed.
 
-(* without filters and broken devices: every file = previous content + ALL records + the fatal one *)
-Lemma pass_nil m : pass [] m = true. Proof. reflexivity. Qed.
+(* without filters, faults and broken devices: every file = previous content + ALL records + the fatal one *)
 Corollary fatal_reaches_disk_unfiltered cfg : cfg_goodb cfg = true ->
   forall pol t msgs r,
   Forall (fun sg => snd sg = [] /\ broken (fst sg) = false) (gsinks t) ->
-  survivors (run_fatal cfg pol t msgs r)
+  survivors (run_fatal cfg pol no_faults t msgs r)
   = map (fun sg => Some (content (fst sg) ++ map snd msgs ++ [r])) (gsinks t).
 Proof.
   intros Hg pol t msgs r H. rewrite (fatal_reaches_disk cfg Hg). unfold expected.
-  induction H as [|[s G] l [HG Hb] _ IH]; [reflexivity|]. cbn [map fst snd] in *. rewrite IH, Hb, HG. f_equal. f_equal. f_equal.
-  assert (E : forall ms : list msg, filter (pass []) ms = ms)
-    by (induction ms as [|m rest IHm]; [reflexivity|]; cbn; rewrite IHm; reflexivity).
+  induction H as [|[s G] l [HG Hb] _ IH]; [reflexivity|]. cbn [map fst snd] in *. rewrite IH, Hb. f_equal. f_equal. f_equal.
+  assert (E : forall ms : list msg, filter (reaches no_faults (s, G)) ms = ms).
+  { assert (T : forall m, reaches no_faults (s, G) m = true) by (intros m; unfold reaches, no_faults; cbn [fst snd]; rewrite HG; reflexivity).
+    induction ms as [|m rest IHm]; [reflexivity|]. cbn [filter]. rewrite T, IHm. reflexivity. }
   rewrite E, map_app. reflexivity.
 Qed.
+
+(* a null entry anywhere in a handler list changes nothing *)
+Lemma gs_cons_null pre l : gs pre (TPipe (TNull :: l)) = gs pre (TPipe l).
+Proof. reflexivity. Qed.
 
 (* ---- the oracle ---- *)
 Lemma ids_eqb_refl a : ids_eqb a a = true.
@@ -259,10 +273,10 @@ Proof.
       destruct x as [a|]; [|reflexivity]. specialize (Hn O a eq_refl). cbn in Hn. inversion Hn. cbn. apply ids_eqb_refl.
 Qed.
 Theorem oracle_holds cfg : cfg_goodb cfg = true ->
-  forall pol t msgs r,
-  prop_c11_b t msgs r (ids_of (survivors (run_fatal cfg pol t msgs r))) = true.
+  forall pol rej t msgs r,
+  prop_c11_b rej t msgs r (ids_of (survivors (run_fatal cfg pol rej t msgs r))) = true.
 Proof.
-  intros Hg pol t msgs r. unfold prop_c11_b. rewrite (fatal_reaches_disk cfg Hg). apply files_okb_refl.
+  intros Hg pol rej t msgs r. unfold prop_c11_b. rewrite (fatal_reaches_disk cfg Hg). apply files_okb_refl.
 Qed.
 
 (* ---- variants of a configuration, for the refutations ---- *)
